@@ -94,3 +94,9 @@ func vfMintSession(sm *SessionManager, authenticated bool, createdAt int64, emai
 
 func vfTokenCacheLen(t *TraefikOidc) int { return vfCacheLen(t.tokenCache.cache) }
 func vfBlacklistLen(t *TraefikOidc) int  { return vfCacheLen(t.tokenBlacklist) }
+
+func vfDecode(codecs []securecookie.Codec, name, value string, dst *map[interface{}]interface{}) error {
+	return securecookie.DecodeMulti(name, value, dst, codecs...)
+}
+
+func vfDecompress(s string) string { return decompressToken(s) }
